@@ -33,6 +33,8 @@ def PlainPathChar (c : Char) : Prop :=
   0x20 < c.toNat ∧ c.toNat < 0x7F ∧ c ≠ '\\' ∧ c ≠ '?' ∧ c ≠ '#' ∧ c ≠ '"' ∧ c ≠ '<' ∧ c ≠ '>' ∧ c ≠ '^' ∧ c ≠ '`'
     ∧ c ≠ '{' ∧ c ≠ '}'
 
+instance (c : Char) : Decidable (PlainPathChar c) := by unfold PlainPathChar; infer_instance
+
 /-- a service prefix as an operator configures it: empty, or `/seg/seg…` of plain characters, not starting with `//`,
 without `.` / `..` segments (in any spelling) -/
 def PrefixOK (p : Str) : Prop :=
